@@ -303,6 +303,15 @@ def run(tier):
                 if not any(v for c, v in atoms):
                     bad.append("an assigning path has not passed an extents / size comparison of the operands")
                     continue
+                if n not in FLAT_ASSIGN and D > 1:
+                    # extents in EVERY dimension: one comparison of whole extensions, or one single-dimension comparison per level (a row-by-row recursion);
+                    # the leading extension together with the element count does not fix the inner extents (2x3x4 vs 2x4x3, or other inner index bases)
+                    whole = [c for c, v in atoms if v and re.search(r"operator[=!]=\(extensions_t|extensions_t::operator[=!]=", repr(c))]
+                    single = {repr(c) for c, v in atoms if v and not re.search(r"operator[=!]=\(extensions_t|extensions_t::operator[=!]=", repr(c))}
+                    if not whole and len(single) < D:
+                        bad.append("an assigning path compares the extents of %d of the %d dimensions only (the leading extension and the element count do not fix the others)"
+                                   % (len(single), D))
+                        continue
                 guarded = False
                 for c, v in atoms:
                     if not v:
